@@ -66,8 +66,10 @@ Direction(D, Z, v) ==
         s == IF Det(Gram(Design(D, Z))) < 0 THEN -1 ELSE 1
     IN IF g = 0 THEN e ELSE Force([i \in 1..Len(e) |-> s * (e[i] \div g)])
 IsZeroVec(u) == \A i \in 1..Len(u) : u[i] = 0
+Small(u) == \A i \in 1..Len(u) : Abs(u[i]) <= 12000          \* keeps the dot products inside TLC's 32-bit integers
 
-Defined(D, X, Y, Z) == FullRank(D, Z) /\ ~IsZeroVec(Direction(D, Z, X)) /\ ~IsZeroVec(Direction(D, Z, Y))
+Defined(D, X, Y, Z) == /\ FullRank(D, Z) /\ ~IsZeroVec(Direction(D, Z, X)) /\ ~IsZeroVec(Direction(D, Z, Y))
+                       /\ Small(Direction(D, Z, X)) /\ Small(Direction(D, Z, Y))
 RForm(D, X, Y, Z) ==
     LET ux == Direction(D, Z, X)
         uy == Direction(D, Z, Y)
@@ -77,6 +79,33 @@ RKind(F) == IF F.sxy * F.sxy = F.sxx * F.syy THEN "zero" ELSE "t"
 
 \* affine re-parametrisation of one column:  v -> a*v + b
 Affine(D, v, a, b) == [D EXCEPT !.rows = [i \in 1..N(D) |-> [D.rows[i] EXCEPT ![v] = a * @ + b]]]
+
+\* ---- named deviation (DESIGN 7): regression THROUGH THE ORIGIN ---------------------------
+\* Not the specified test.  Design matrix without the constant column; Pearson's correlation then centres the
+\* residuals itself.  Printed next to the specified value so that a rejected observation can be classified as
+\* "this known deviation" or "something else".  Only for Z # <<>>.
+DesignNoIcpt(D, Z) == Force([k \in 1..Len(Z) |-> Col(D, Z[k])])
+ScaledResidualOn(A, D, v) ==
+    LET G == Gram(A)
+        rhs == Force([j \in 1..Len(A) |-> Dot(A[j], Col(D, v))])
+        Nj == Force([j \in 1..Len(A) |-> Det(ReplCol(G, j, rhs))])
+        dg == Det(G)
+    IN Force([i \in 1..N(D) |-> dg * D.rows[i][v] - SumTo([j \in 1..Len(A) |-> A[j][i] * Nj[j]], Len(A))])
+DevDirection(D, Z, v) ==
+    LET A == DesignNoIcpt(D, Z)
+        e == ScaledResidualOn(A, D, v)
+        tot == SumTo(e, Len(e))
+        c == Force([i \in 1..Len(e) |-> N(D) * e[i] - tot])           \* centred (times n)
+        g == VecGcd(c)
+        s == IF Det(Gram(A)) < 0 THEN -1 ELSE 1
+    IN IF g = 0 THEN c ELSE Force([i \in 1..Len(c) |-> s * (c[i] \div g)])
+DevDefined(D, X, Y, Z) == /\ Len(Z) >= 1 /\ Det(Gram(DesignNoIcpt(D, Z))) # 0
+                          /\ ~IsZeroVec(DevDirection(D, Z, X)) /\ ~IsZeroVec(DevDirection(D, Z, Y))
+                          /\ Small(DevDirection(D, Z, X)) /\ Small(DevDirection(D, Z, Y))
+DevRForm(D, X, Y, Z) ==
+    LET ux == DevDirection(D, Z, X)
+        uy == DevDirection(D, Z, Y)
+    IN [sxy |-> Dot(ux, uy), sxx |-> Dot(ux, ux), syy |-> Dot(uy, uy), n |-> N(D)]
 
 Reverse(s) == [i \in 1..Len(s) |-> s[Len(s) + 1 - i]]
 \* ---- lemmas -------------------------------------------------------------------------
